@@ -9,11 +9,12 @@ CLAIMED = {
         text="Machine-checked translation correctness (C01_partial, ~2000 lines of Lean): for EVERY program of the decidable fragment InF (int/bool, + - *, unary minus, "
              "comparisons, and/or/not, conditional expressions, assignment, augmented assignment, if/elif/else, while, for-range, break, serial write, sleep, prologue + "
              "main loop) and EVERY N, if the transpiler model accepts, the C semantics of the emitted program produces exactly CPython's trace (or C int overflow, which is "
-             "UB); break in the main loop is always rejected; the full statement is refuted by machine-checked counterexamples (and/or value, range limit). The model is tied "
+             "UB); the same holds with hoisted declarations (C01_partial_promotion: names first assigned directly in a top-level branch or loop body of the prologue become "
+             "globals; tr2 is a conservative extension of tr); break in the main loop is always rejected; the full statement is refuted by machine-checked counterexamples (and/or value, range limit). The model is tied "
              "three ways on generated programs: emitted TEXT = render(tr p) (T), Python semantics = CPython (S_py), C semantics = compiled sketch (S_c); the end-to-end "
              "oracle CPython-vs-firmware runs on the fragment and on scripts with one construct outside it (helpers, tuples, lists, f-strings, floats, //, %, continue …).",
         note="Trusted: Lean kernel (propext, Classical.choice, Quot.sound); the fragment is what is proved — helper functions, lists, strings, floats, promotion of names first "
-             "assigned below the top level are exercised only by the end-to-end oracle; C int is modelled unbounded with overflow as an explicit error at 32 bits (16-bit AVR "
+             "assigned deeper than one block below the top level or inside the main loop are exercised only by the end-to-end oracle; C int is modelled unbounded with overflow as an explicit error at 32 bits (16-bit AVR "
              "int is a stronger side condition); langgen printers, pyoracle (CPython + host modules), mock core + host g++. Known findings K01a–K01j.",
         technique="Lean 4 compiler-correctness proof (simulation, induction on fuel/statements/N) + text, CPython and g++ correspondence ties + end-to-end oracle", ref="4/C01"),
     "C02": dict(
@@ -34,7 +35,8 @@ CLAIMED = {
              "completion of the environment, in particular a name-free expression has exactly one value; chained comparisons are the conjunction of adjacent comparisons; "
              "(b) model of the constant environment (copies into branch/loop/main-loop bodies, list objects shared by reference, fold sites): for every script whose "
              "folded names are only written by top-level statements, the emitted program observes on EVERY execution path (any branch choices, any iteration counts) what "
-             "the source observes; scripts without transpile-time constants are emitted unchanged; the unrestricted statement is proved false by four witnesses. "
+             "the source observes; scripts without transpile-time constants are emitted unchanged; inside a function body no read of a parameter is folded whatever a global of the same name "
+             "holds; the unrestricted statement is proved false by four witnesses. "
              "Ties: model evaluator vs parser._eval_const vs CPython eval; model fold sites vs the emitted text; model traces vs CPython and compiled firmware. Oracle: firmware "
              "vs CPython on scripts with len() fold sites under run-time-decided branches, loops and the main loop; folded sleep() arguments; parameters shadowing constants.",
         note="Trusted: Lean kernel (propext, Classical.choice, Quot.sound); the environment model covers str and list-of-int values read by len() (flash_pattern/glyph/sensor-model "
@@ -64,7 +66,7 @@ CLAIMED = {
     "C06": dict(
         text="Lean theorems: the literal the parser writes for ANY string without a raw newline is read back by a C++ string-literal lexer as exactly that string, ending "
              "at its closing quote (all strings, all continuations; the reversed replace order is proved wrong); for every core-fragment script that reads names only after "
-             "they are bound, the sketch the translation function produces declares every identifier before use, exactly once, with `break` only inside loops; every rendered "
+             "they are bound, the sketch the translation function produces declares every identifier before use, exactly once, with `break` only inside loops (also with hoisted declarations: tr2_wf); every rendered "
              "sketch has exactly one setup and one loop opener in that order and balanced braces; included headers = instantiated library classes (C14). Ties: model literal "
              "vs parser._escape_string_literal and vs bytes printed by the compiled firmware; WF model vs g++ -fsyntax-only on real emissions incl. unbound/out-of-scope reads. "
              "Oracle: g++ compile+link of every accepted script from a feature pool and a large random generator of the documented style (all devices, every accepted call "
